@@ -1,6 +1,6 @@
 (* C18 — every well-formed pipeline text parses to the pipeline it describes. *)
 From Coq Require Import List NArith Bool.
-From VT Require Import Model.VPL Proofs.VPLProofs Gen.Constants.
+From VT Require Import Model.VPL Proofs.VPLProofs Proofs.VPLRoundtrip Gen.Constants.
 Import ListNotations.
 Local Open Scope N_scope.
 
@@ -11,6 +11,30 @@ Lemma C18_gen_empty_value_accepted : vpl_empty_variant = 1.  Proof. reflexivity.
 Theorem C18_quoted_value_roundtrip : forall s tail, quoted vpl_empty_variant (qprint s ++ tail) = ROk s tail.
 Proof. exact quoted_roundtrip. Qed.
 Print Assumptions C18_quoted_value_roundtrip.
+
+(* the whole language: every well-formed pipeline - any number of nodes joined by '|', any number
+   of properties per node (identifier keys; single values or lists of values of arbitrary
+   characters), source lists nested to any depth - is read back from its canonical text
+   (render_pipe: `name k="v" k2=["a","b"][src|src,src]`); the fuel of parse_vpl is shown to suffice *)
+Theorem C18_pipeline_roundtrip : forall p, wf_pipe p -> parse_vpl vpl_empty_variant (render_pipe p) = Some p.
+Proof. exact vpl_roundtrip. Qed.
+Print Assumptions C18_pipeline_roundtrip.
+
+Example C18_wf_example :
+  let p := [Node [97] [([107], [[120; 34]]); ([108], [])] [[Node [98] [] []]; [Node [99] [] []; Node [100; 45; 49] [] []]]] in
+  wf_pipe p /\ parse_vpl 1 (render_pipe p) = Some p.
+Proof.
+  split; [|vm_compute; reflexivity].
+  assert (W : forall a b, a <> [] -> forallb is_alpha a = true -> forallb ident_tail b = true -> (match b with c :: _ => is_alpha c = false | [] => True end) -> wf_ident (a ++ b))
+    by (intros a b H1 H2 H3 H4; exists a, b; auto).
+  split; [discriminate|]. cbn. repeat split; try discriminate; try (repeat constructor);
+    try (apply (W [97] []); [discriminate|reflexivity|reflexivity|exact I]);
+    try (apply (W [98] []); [discriminate|reflexivity|reflexivity|exact I]);
+    try (apply (W [99] []); [discriminate|reflexivity|reflexivity|exact I]);
+    try (apply (W [100] [45; 49]); [discriminate|reflexivity|reflexivity|reflexivity]);
+    try (apply (W [107] []); [discriminate|reflexivity|reflexivity|exact I]);
+    try (apply (W [108] []); [discriminate|reflexivity|reflexivity|exact I]).
+Qed.
 
 Theorem C18_empty_value_refuted_before_fix : parse_vpl 0 [97; 32; 98; 61; 34; 34] = None.
 Proof. exact empty_value_rejected_v0. Qed.
